@@ -394,22 +394,26 @@ theorem resolveTransition_reg {cfg : NCfg} (hwf : cfg.states.WF = true) {sc : Sc
   simp only [resolveTransition] at h
   split at h
   · cases h
-  · have hdst : (if (activePrefix conf dest).2.isEmpty = true then
-        (activePrefix conf dest).1.drop ((activePrefix conf dest).1.length - 1) else (activePrefix conf dest).2) ≠ [] := by
+  · split at h
+    · cases h
+    · cases h
+    rename_i sT _
+    have hdst : (if (activePrefix sT dest).2.isEmpty = true then
+        (activePrefix sT dest).1.drop ((activePrefix sT dest).1.length - 1) else (activePrefix sT dest).2) ≠ [] := by
       split
       · rename_i he
-        have h1 := Change.activePrefix_fst_ne_nil (f := conf) hdest (by simpa using he)
+        have h1 := Change.activePrefix_fst_ne_nil (f := sT) hdest (by simpa using he)
         intro e
         have h2 := congrArg List.length e
-        have h3 : 0 < (activePrefix conf dest).1.length := List.length_pos_iff.mpr h1
+        have h3 : 0 < (activePrefix sT dest).1.length := List.length_pos_iff.mpr h1
         simp at h2; omega
       · rename_i he
         simpa using he
-    generalize (if (activePrefix conf dest).2.isEmpty = true then
-        (activePrefix conf dest).1.drop ((activePrefix conf dest).1.length - 1) else (activePrefix conf dest).2) = dst
+    generalize (if (activePrefix sT dest).2.isEmpty = true then
+        (activePrefix sT dest).1.drop ((activePrefix sT dest).1.length - 1) else (activePrefix sT dest).2) = dst
         at h hdst
-    generalize (if (activePrefix conf dest).2.isEmpty = true then
-        (activePrefix conf dest).1.dropLast else (activePrefix conf dest).1) = rt at h
+    generalize (if (activePrefix sT dest).2.isEmpty = true then
+        (activePrefix sT dest).1.dropLast else (activePrefix sT dest).1) = rt at h
     obtain ⟨d0, dr, rfl⟩ := List.exists_cons_of_ne_nil hdst
     split at h
     · cases h
@@ -530,7 +534,10 @@ theorem nchangeState_sync (hwf : cfg.states.WF = true) (hC : NoCmds sc) (hI : In
   · exact PresS.oof
   · rename_i r hr
     obtain ⟨hex, hen⟩ := resolveTransition_reg hwf hw _ _ r hr
-    refine PresS.bind (exitAll_sync hC hI x r.exits s hex) ?_
+    refine PresS.bind (s := s) ?_ ?_
+    · intro s' h
+      exact (exitAll_sync hC hI x r.exits { s with exited := s.exited ++ r.exitNames } hex s' h).congr
+        rfl rfl rfl rfl
     intro _ s1 _ s' h
     exact (enterAll_sync hC hI x r.enters _ hen s' h).congr rfl rfl rfl rfl
 
@@ -615,16 +622,18 @@ theorem triggerNested_sync (hwf : cfg.states.WF = true) (hC : NoCmds sc) (hI : I
     · exact PresS.oof
     · refine PresS.bind (tnLoop_sync hwf hC hI scope hw x ev ts hts _ _ s) ?_
       intro _ s1 _
-      exact PresS.ok (Sync.refl _ _)
+      split
+      · exact PresS.ok (Sync.refl _ _)
+      · exact PresS.ok ((Sync.refl cfg s1).congr rfl rfl rfl rfl)
 
 theorem ten_sync (hwf : cfg.states.WF = true) (hC : NoCmds sc) (hI : Instrumented cfg) (x : Ctx) (ev : Nat) :
-    ∀ (tree : Forest) (scope : Scope) (res : List (Nat × Bool)) (s : NSt),
-    cfg.root.walkTo scope.pre = some scope → PresS cfg (ten sub sc cfg x ev scope tree res s) s := by
+    ∀ (tree : Forest) (scope : Scope) (res : List (Nat × Bool)) (offered : Bool) (s : NSt),
+    cfg.root.walkTo scope.pre = some scope → PresS cfg (ten sub sc cfg x ev scope tree res offered s) s := by
   intro tree
   induction tree with
-  | nil => intro scope res s _; unfold ten; exact PresS.ok (Sync.refl _ _)
+  | nil => intro scope res offered s _; unfold ten; exact PresS.ok (Sync.refl _ _)
   | cons key value rest ihv ihr =>
-    intro scope res s hw
+    intro scope res offered s hw
     unfold ten
     refine PresS.bind ?_ ?_
     · split
@@ -632,19 +641,18 @@ theorem ten_sync (hwf : cfg.states.WF = true) (hC : NoCmds sc) (hI : Instrumente
       · split
         · exact PresS.err (Sync.refl _ _)
         · rename_i inner he
-          refine PresS.bind (ihv inner [] s (Scope.walkTo_enter hw he)) ?_
+          refine PresS.bind (ihv inner [] false s (Scope.walkTo_enter hw he)) ?_
           intro _ s1 _
           exact PresS.ok (Sync.refl _ _)
     · intro res1 s1 _
-      refine PresS.bind ?_ (fun res2 s2 _ => ihr scope res2 s2 hw)
       split
       · split
         · rename_i ts hts
           refine PresS.bind (triggerNested_sync hwf hC hI scope hw x ev ts hts s1) ?_
           intro _ s2 _
-          exact PresS.ok (Sync.refl _ _)
-        · exact PresS.ok (Sync.refl _ _)
-      · exact PresS.ok (Sync.refl _ _)
+          exact ihr scope _ true s2 hw
+        · exact ihr scope res1 offered s1 hw
+      · exact ihr scope res1 offered s1 hw
 
 theorem checkEventResult_sync (res : Option Bool) (ev : Nat) (s : NSt) :
     PresS cfg (checkEventResult cfg res ev s) s := by
@@ -659,7 +667,7 @@ theorem checkEventResult_sync (res : Option Bool) (ev : Nat) (s : NSt) :
 theorem triggerEventBody_sync (hwf : cfg.states.WF = true) (hC : NoCmds sc) (hI : Instrumented cfg) (x : Ctx)
     (ev : Nat) (s : NSt) : PresS cfg (triggerEventBody sub sc cfg x ev s) s := by
   unfold triggerEventBody
-  refine PresS.bind (ten_sync hwf hC hI x ev s.conf cfg.root [] s (NCfg.walkTo_root cfg)) ?_
+  refine PresS.bind (ten_sync hwf hC hI x ev s.conf cfg.root [] false s (NCfg.walkTo_root cfg)) ?_
   intro r s1 _
   refine PresS.bind (checkEventResult_sync _ ev s1) ?_
   intro b s2 _
@@ -723,8 +731,9 @@ theorem finallyClause_sync (hC : NoCmds sc) (hI : Instrumented cfg) (x : Ctx) (r
 
 theorem ntriggerEvent_sync (hwf : cfg.states.WF = true) (hC : NoCmds sc) (hI : Instrumented cfg) (x : Ctx)
     (ev : Nat) (s : NSt) : PresS cfg (ntriggerEvent sub sc cfg x ev s) s := by
-  have hbody : PresS cfg (triggerEventBody sub sc cfg x ev { s with result := none }) s :=
-    fun s' h => (triggerEventBody_sync hwf hC hI x ev { s with result := none } s' h).congr rfl rfl rfl rfl
+  have hbody : PresS cfg (triggerEventBody sub sc cfg x ev { s with result := none, exited := [] }) s :=
+    fun s' h => (triggerEventBody_sync hwf hC hI x ev { s with result := none, exited := [] } s' h).congr
+      rfl rfl rfl rfl
   unfold ntriggerEvent
   exact finallyClause_sync hC hI x _ _ (exceptClause_sync hC x _ _ hbody)
 
